@@ -5,6 +5,7 @@ pub mod framing;
 pub mod head;
 pub mod headers;
 pub mod response;
+pub mod server;
 
 pub fn run(args: &Args, out: Out) {
     match args.driver.as_str() {
@@ -19,6 +20,8 @@ pub fn run(args: &Args, out: Out) {
         "status-all" => response::run_status(args, out),
         "exchange-gen" => exchange::run_gen(args, out),
         "limits" => exchange::run_limits(args, out),
+        "tokens-enum" => server::run_tokens(args, out),
+        "server-stress" => server::run_stress(args, out),
         "headers-enum" => headers::run_enum(args, out),
         "ascii-ctors" => headers::run_ctors(args, out),
         "framing-gen" => framing::run_gen(args, out),
